@@ -291,8 +291,14 @@ fn generate_migration_code(
                 ::vespertide::MigrationError::DatabaseError(format!("Failed to read version: {}", e))
             })?;
 
+            // versions are u32: read 64-bit where the backend returns it (SQLite, MySQL),
+            // fall back to i32 for a 32-bit INTEGER column (PostgreSQL)
             let __version = version_result
-                .and_then(|row| row.try_get::<i32>("", "version").ok())
+                .and_then(|row| {
+                    row.try_get::<i64>("", "version")
+                        .ok()
+                        .or_else(|| row.try_get::<i32>("", "version").ok().map(i64::from))
+                })
                 .unwrap_or(0) as u32;
 
             // Load all existing (version, id) pairs for id mismatch validation
@@ -304,7 +310,10 @@ fn generate_migration_code(
 
             let mut __version_ids = std::collections::HashMap::<u32, String>::new();
             for row in &id_rows {
-                if let Ok(v) = row.try_get::<i32>("", "version") {
+                if let Ok(v) = row
+                    .try_get::<i64>("", "version")
+                    .or_else(|_| row.try_get::<i32>("", "version").map(i64::from))
+                {
                     let id = row.try_get::<String>("", "id").unwrap_or_default();
                     __version_ids.insert(v as u32, id);
                 }
